@@ -10,6 +10,8 @@
    E <nnodes> { <fsym> <arity> { <child> }^arity }^nnodes <nlits> { <a> <b> <pol> }^nlits <ndcs> { <id> }^ndcs
         EUF clause over a term DAG (CC.euf_clause_check); dcs = nodes with pairwise different values
    A <sel> <sto> <...as E...>   the same with read-over-write instances for the symbols sel/sto (CC.arr_clause_check)
+   S <sel> <sto> <nsplits> { <a> <b> }^nsplits <...as E...>   the same with case analysis (equal / different) on the
+        listed node pairs (CC.arr_clause_split_check)
    Numbers are converted with Bits (decimal <-> bit list); Z/positive/Q stay the extracted datatypes. *)
 open Th_model
 
@@ -112,9 +114,18 @@ let mixed_query toks =
   fin ();
   mixed_clause_check isint d (List.rev !rest) kd1 (List.rev !ks1) kd2 (List.rev !ks2)
 
-let euf_query arr toks =
+let euf_query arr split toks =
   let (next, fin) = reader toks in
   let selsto = if arr then (let a = pos_of_string (next ()) in let b = pos_of_string (next ()) in Some (a, b)) else None in
+  let splits = ref [] in
+  if split then begin
+    let ns = int_of_string (next ()) in
+    for _ = 1 to ns do
+      let a = nat_of_string (next ()) in
+      let b = nat_of_string (next ()) in
+      splits := (a, b) :: !splits
+    done
+  end;
   let nn = int_of_string (next ()) in
   let g = ref [] in
   for _ = 1 to nn do
@@ -138,7 +149,9 @@ let euf_query arr toks =
   fin ();
   match selsto with
   | None -> euf_clause_check (List.rev !g) (List.rev !cl) (List.rev !dcs)
-  | Some (sel, sto) -> arr_clause_check sel sto (List.rev !g) (List.rev !cl) (List.rev !dcs)
+  | Some (sel, sto) ->
+    if split then arr_clause_split_check sel sto (List.rev !splits) (List.rev !g) (List.rev !cl) (List.rev !dcs)
+    else arr_clause_check sel sto (List.rev !g) (List.rev !cl) (List.rev !dcs)
 
 let () =
   try while true do
@@ -148,8 +161,9 @@ let () =
       | "Q" :: r -> let (i, lits, ks) = la_query r in print_endline (if la_conflict_check i lits ks then "1" else "0")
       | "K" :: r -> let (i, lits, ks) = la_query r in print_endline (if la_clause_check i lits ks then "1" else "0")
       | "M" :: r -> print_endline (if mixed_query r then "1" else "0")
-      | "E" :: r -> print_endline (if euf_query false r then "1" else "0")
-      | "A" :: r -> print_endline (if euf_query true r then "1" else "0")
+      | "E" :: r -> print_endline (if euf_query false false r then "1" else "0")
+      | "A" :: r -> print_endline (if euf_query true false r then "1" else "0")
+      | "S" :: r -> print_endline (if euf_query true true r then "1" else "0")
       | _ -> print_endline "bad query"
     with e -> print_endline ("bad " ^ Printexc.to_string e))
   done with End_of_file -> ()
